@@ -30,6 +30,7 @@ Definition lastc (a : str) (prev : option N) : option N :=
   match rev a with [] => prev | c :: _ => Some c end.
 
 Definition nonempty {A} (l : list A) : bool := match l with [] => false | _ => true end.
+Definition hd_is (p : N -> bool) (s : str) : bool := match s with c :: _ => p c | [] => false end.
 
 (* ====================================================================== re.sub / str.replace
    A matcher looks at the previous character of the ORIGINAL string (lookbehind of \b) and at the
@@ -105,16 +106,18 @@ Definition s_and_pad : str := [32; 97; 110; 100; 32].
 Definition s_or_pad : str := [32; 111; 114; 32].
 Definition s_not_pad : str := [32; 110; 111; 116; 32].
 
-Definition m_and : matcher := fun _ s =>
-  match s with 38 :: 38 :: _ => Some (s_and_pad, 1%nat) | _ => None end.
-Definition m_or : matcher := fun _ s =>
-  match s with 124 :: 124 :: _ => Some (s_or_pad, 1%nat) | _ => None end.
+Definition m_op (x : N) (rep : str) : matcher := fun _ s =>
+  match s with
+  | c1 :: c2 :: _ => if (c1 =? x) && (c2 =? x) then Some (rep, 1%nat) else None
+  | _ => None
+  end.
+Definition m_and : matcher := m_op 38 s_and_pad.          (* expr.replace("&&", " and ") *)
+Definition m_or : matcher := m_op 124 s_or_pad.           (* expr.replace("||", " or ") *)
 (* re.sub of  ! not followed by =  (negative lookahead)  by " not " *)
 Definition m_not : matcher := fun _ s =>
   match s with
-  | 33 :: 61 :: _ => None
-  | 33 :: _ => Some (s_not_pad, 0%nat)
-  | _ => None
+  | c :: r => if c =? 33 then (if hd_is (N.eqb 61) r then None else Some (s_not_pad, 0%nat)) else None
+  | [] => None
   end.
 
 Definition get_expression (s : str) : str :=
@@ -341,7 +344,6 @@ Definition s_or : str := [111; 114].
 Definition s_not : str := [110; 111; 116].
 Definition s_eval : str := [101; 118; 97; 108].
 
-Definition hd_is (p : N -> bool) (s : str) : bool := match s with c :: _ => p c | [] => false end.
 
 (* string literal body: up to the closing quote; no backslash, no newline inside *)
 Definition lex_string (q : N) (s : str) : option (str * str) :=
@@ -486,6 +488,110 @@ Definition tr (t : tok) : list tok :=
    add_def (load time) then _get_expression (enforce time) *)
 Definition pipeline (v : str) : str := get_expression (stored_value v).
 
+
+(* ====================================================================== well-formedness, admissible layouts
+   (the hypotheses of the theorems in Props/C02.v; boolean, so the harness can evaluate them) *)
+Definition ident (s : str) : bool :=
+  match s with c :: r => is_alpha c && forallb is_word r | [] => false end.
+Definition rp_any (w : str) : bool := rp_form 112 w || rp_form 114 w.
+(* Python keywords other than True / False: None and as assert async await break class continue def del elif else except finally for from global if import in is lambda nonlocal not or pass raise return try while with yield *)
+Definition py_keywords : list str :=
+  [[78; 111; 110; 101]; [97; 110; 100]; [97; 115]; [97; 115; 115; 101; 114; 116]; [97; 115; 121; 110; 99]; [97; 119; 97; 105; 116]; [98; 114; 101; 97; 107]; [99; 108; 97; 115; 115]; [99; 111; 110; 116; 105; 110; 117; 101]; [100; 101; 102]; [100; 101; 108]; [101; 108; 105; 102]; [101; 108; 115; 101]; [101; 120; 99; 101; 112; 116]; [102; 105; 110; 97; 108; 108; 121]; [102; 111; 114]; [102; 114; 111; 109]; [103; 108; 111; 98; 97; 108]; [105; 102]; [105; 109; 112; 111; 114; 116]; [105; 110]; [105; 115]; [108; 97; 109; 98; 100; 97]; [110; 111; 110; 108; 111; 99; 97; 108]; [110; 111; 116]; [111; 114]; [112; 97; 115; 115]; [114; 97; 105; 115; 101]; [114; 101; 116; 117; 114; 110]; [116; 114; 121]; [119; 104; 105; 108; 101]; [119; 105; 116; 104]; [121; 105; 101; 108; 100]].
+(* identifiers, field names, attribute names: ASCII identifier, not r<digits> / p<digits>, not a keyword *)
+Definition good_name (s : str) : bool :=
+  ident s && negb (rp_any s) && negb (mem str_eqb s py_keywords).
+Definition digits_ok (ds : str) : bool :=
+  nonempty ds && forallb is_digit ds && match ds with 48 :: _ :: _ => false | _ => true end.
+(* characters allowed inside a string literal: printable ASCII except & | ! # double-quote quote
+   backslash ( ) *)
+Definition lit_char (c : N) : bool :=
+  (32 <=? c) && (c <=? 126) && negb (mem N.eqb c [38; 124; 33; 35; 34; 39; 92; 40; 41]).
+(* no position where escape_assertion's search  \b LETTER \d* \.  matches *)
+Fixpoint no_match_in (letter : N) (prev : option N) (s : str) : bool :=
+  match s with
+  | [] => true
+  | c :: s' => match match_any letter prev s with
+               | Some _ => false
+               | None => no_match_in letter (Some c) s'
+               end
+  end.
+Definition lit_ok (dq : bool) (s : str) : bool :=
+  let q := quote_of dq in
+  forallb lit_char s && no_match_in 112 (Some q) (s ++ [q]) && no_match_in 114 (Some q) (s ++ [q]).
+
+(* rs / ps: the one request suffix and the one policy suffix the definition uses (escape_assertion
+   escapes only the suffix of its first match) *)
+Definition wf_tok (rs ps : str) (t : tok) : bool :=
+  match t with
+  | TReq sfx f attrs => str_eqb sfx rs && good_name f && forallb good_name attrs
+  | TPol sfx f => str_eqb sfx ps && good_name f
+  | TEval sfx f => str_eqb sfx ps && good_name f
+  | TStr dq s => lit_ok dq s
+  | TInt ds => digits_ok ds
+  | TId s => good_name s
+  | TDotted x attrs => good_name x && forallb good_name attrs
+  | TEvalE x => good_name x
+  | TDot => false
+  | _ => true
+  end.
+
+Definition casbin_tok (t : tok) : bool :=
+  match t with TDotted _ _ | TEvalE _ | TKAnd | TKOr | TKNot | TDot => false | _ => true end.
+Definition eval_tok (t : tok) : bool := match t with TEval _ _ | TEvalE _ => true | _ => false end.
+
+(* well-formed Casbin token list *)
+Definition wf_tokens (rs ps : str) (ts : list tok) : bool :=
+  forallb is_digit rs && forallb is_digit ps && forallb (fun t => wf_tok rs ps t && casbin_tok t) ts.
+
+Definition starts_word (t : tok) : bool :=
+  match t with
+  | TIn | TReq _ _ _ | TPol _ _ | TEval _ _ | TInt _ | TId _ | TDotted _ _ | TEvalE _
+  | TKAnd | TKOr | TKNot => true
+  | _ => false
+  end.
+Definition ends_word (t : tok) : bool :=
+  match t with
+  | TIn | TReq _ _ _ | TPol _ _ | TInt _ | TId _ | TDotted _ _ | TKAnd | TKOr | TKNot => true
+  | _ => false
+  end.
+Definition starts_quote (t : tok) : bool := match t with TStr _ _ => true | _ => false end.
+Definition is_cmp (t : tok) : bool := match t with TCmp _ => true | _ => false end.
+Definition opish (t : tok) : bool := match t with TCmp _ | TNot => true | _ => false end.
+
+(* the run of blanks g between tokens t and t' : may be EMPTY unless the two would glue (word
+   character against word character or quote); an operator is never followed by a comparison *)
+Definition gap_ok (t : tok) (g : str) (t' : tok) : bool :=
+  (nonempty g || negb (ends_word t && (starts_word t' || starts_quote t')))
+  && negb (opish t && is_cmp t').
+
+Fixpoint adm (ps : list piece) : bool :=
+  match ps with
+  | [] => true
+  | (a, t, b) :: rest =>
+      forallb is_blank a && forallb is_blank b
+      && match rest with
+         | [] => true
+         | (a', t', _) :: _ => gap_ok t (b ++ a') t'
+         end
+      && adm rest
+  end.
+
+Definition admissible (ts : list tok) (ws : layout) : bool :=
+  Nat.eqb (length ws) (length ts) && adm (mk_pieces ts ws).
+
+(* the token maps of the stages *)
+Definition esc_p (t : tok) : tok :=
+  match t with
+  | TPol sfx f => TId (esc_name 112 sfx f)
+  | TEval sfx f => TEvalE (esc_name 112 sfx f)
+  | t => t
+  end.
+Definition esc_r (t : tok) : tok :=
+  match t with TReq sfx f attrs => TDotted (esc_name 114 sfx f) attrs | t => t end.
+Definition esc_tok (t : tok) : tok := esc_r (esc_p t).
+Definition kw_tok (t : tok) : tok :=
+  match t with TAnd => TKAnd | TOr => TKOr | TNot => TKNot | t => t end.
+
 (* ====================================================================== parser for the Python-side tokens
    or < and < not < comparison (single, not chained) < atom with trailers.  Err ESyntax where
    Python's grammar rejects, Err ELimit for valid Python outside the fragment, Err EFuel never
@@ -552,6 +658,7 @@ with p_cmp (k : nat) (ts : list tok) {struct k} : pres :=
                | [_], false => Err ELimit                     (* x in (y): not a tuple *)
                | items, _ => Ok (EIn (fst ar) items false, snd ir)
                end)
+      | [TIn] => Err ESyntax
       | TIn :: _ => Err ELimit
       | TKNot :: TIn :: _ => Err ELimit
       | _ => Ok ar
@@ -802,7 +909,9 @@ Definition vtoks (ts : list tok) : val :=
    tag 2: SPEC   [effector; world; rsfx; psfx; rfields; pfields; rvals; expr; rules] -> result bool
    tag 3: text pipeline of a matcher value without eval: [value] -> option (Python-side tokens)
    tag 4: cb_lex [text] -> option tokens
-   tag 5: tokens_of + grammatical: [expr] -> [grammatical; tokens; map tr tokens] *)
+   tag 5: tokens_of + grammatical: [expr] -> [grammatical; tokens; map tr tokens]
+   tag 6: hypotheses of the theorems on a generated case: [rs; ps; expr; layout] ->
+          [wf_tokens; admissible; render] *)
 Definition oracle_C02 (tag : N) (v : val) : val :=
   match tag, v with
   | 1, VL [text; rt; pt; et; mt; w; rvals] =>
@@ -838,6 +947,17 @@ Definition oracle_C02 (tag : N) (v : val) : val :=
       match expr_of_val e with
       | Some e => VL [vbool (grammatical e); vtoks (tokens_of e); vtoks (flat_map tr (tokens_of e))]
       | None => vbad
+      end
+  | 6, VL [rs; ps; e; ws] =>
+      match as_str rs, as_str ps, expr_of_val e,
+            as_listof (fun x => match x with
+                                | VL [a; b] => match as_str a, as_str b with
+                                               | Some a, Some b => Some (a, b) | _, _ => None end
+                                | _ => None end) ws with
+      | Some rs, Some ps, Some e, Some ws =>
+          VL [vbool (wf_tokens rs ps (tokens_of e)); vbool (admissible (tokens_of e) ws);
+              vstr (render (tokens_of e) ws)]
+      | _, _, _, _ => vbad
       end
   | _, _ => vbad
   end.
